@@ -5,6 +5,7 @@
 // ---------------------------------------------------------------------------
 use std::collections::HashMap;
 pub const EWOULDBLOCK: c_int = 11;
+pub const EAGAIN: c_int = 11;
 pub type RawFd = c_int;
 
 #[derive(Copy, Clone)]
